@@ -1,4 +1,4 @@
-(* C01 ceiling: coverage and area of the per-face kernel. *)
+(* C01 ceiling: coverage, area, idempotence and complement of the per-face kernel (snapped distances). *)
 From Coq Require Import ZArith Reals Lra Psatz List Bool Lia Arith.
 From PW Require Import Num NumR Vec NpList Result.
 From PW.model Require Import M_slicing.
@@ -9,16 +9,23 @@ Local Open Scope R_scope.
 Ltac d3 t := let A := fresh "A" in let B := fresh "B" in let C := fresh "C" in
   destruct t as [[A B] C]; destruct A as [? ? ?]; destruct B as [? ? ?]; destruct C as [? ? ?].
 
-(* one corner in front (offset a > 0 >= b, c): the cut triangle covers everything of the face not behind the plane *)
-Lemma tri0_cover eps n o t x : 0 < pd n o (tget t 0) -> pd n o (tget t 1) <= 0 -> pd n o (tget t 2) <= 0 ->
-  in_tri t x -> 0 <= pd n o x -> exists t', In t' (tri0 eps n o t) /\ in_tri t' x.
+Lemma in_tri_nn_unrot t ds k x : (k < 3)%nat -> in_tri_nn t ds x -> in_tri_nn (rot3 t k) (rotd ds k) x.
 Proof.
-  intros Ha Hb Hc (al & be & ga & H0 & H1 & H2 & Hs & ->) Hx.
-  unfold pd in *. rewrite plane_dot_bary in Hx by exact Hs.
-  pose proof (tri0_lerp eps n o t) as E. unfold pd in E. rewrite E by lra. clear E.
-  eexists. split; [left; reflexivity|].
-  set (a := plane_dot ROps n o (tget t 0)) in *. set (b := plane_dot ROps n o (tget t 1)) in *.
-  set (c := plane_dot ROps n o (tget t 2)) in *. clearbody a b c.
+  intros Hk. destruct t as [[a b] c]. destruct ds as [[da db] dc]. unfold in_tri_nn, wdot.
+  destruct k as [|[|[|k]]]; try lia; unfold rot3, rotd; cbn [tget dget fst snd Nat.add Nat.modulo Nat.divmod Nat.sub];
+    intros (w0 & w1 & w2 & H0 & H1 & H2 & Hs & -> & Hd).
+  - exists w0, w1, w2. repeat split; auto.
+  - exists w1, w2, w0. repeat split; auto; [lra| |lra]. dvec. tunf. apply V3_ext; ring.
+  - exists w2, w0, w1. repeat split; auto; [lra| |lra]. dvec. tunf. apply V3_ext; ring.
+Qed.
+
+(* one corner in front (a > 0 >= b, c): the cut triangle covers every point whose interpolated distance is >= 0 *)
+Lemma tri0_cover eps ds t x : 0 < dget ds 0 -> dget ds 1 <= 0 -> dget ds 2 <= 0 ->
+  in_tri_nn t ds x -> exists t', In t' (tri0 eps ds t) /\ in_tri t' x.
+Proof.
+  intros Ha Hb Hc (al & be & ga & H0 & H1 & H2 & Hs & -> & Hx).
+  rewrite tri0_lerp by lra. eexists. split; [left; reflexivity|].
+  unfold wdot in Hx. destruct ds as [[a b] c]. cbn [dget fst snd] in *.
   assert (Eal : al = 1 - be - ga) by lra. subst al.
   exists (1 - be * (a - b) / a - ga * (a - c) / a), (be * (a - b) / a), (ga * (a - c) / a).
   repeat split.
@@ -30,15 +37,13 @@ Proof.
   - d3 t. tunf. apply V3_ext; field; lra.
 Qed.
 
-(* two corners in front (a < 0 < b, c): the two triangles of the quad cover everything not behind the plane *)
-Lemma quad0_cover eps n o t x : pd n o (tget t 0) < 0 -> 0 < pd n o (tget t 1) -> 0 < pd n o (tget t 2) ->
-  in_tri t x -> 0 <= pd n o x -> exists t', In t' (quad0 eps n o t) /\ in_tri t' x.
+(* two corners in front (a < 0 < b, c): the two triangles of the quad cover every point with interpolated distance >= 0 *)
+Lemma quad0_cover eps ds t x : dget ds 0 < 0 -> 0 < dget ds 1 -> 0 < dget ds 2 ->
+  in_tri_nn t ds x -> exists t', In t' (quad0 eps ds t) /\ in_tri t' x.
 Proof.
-  intros Ha Hb Hc (al & be & ga & H0 & H1 & H2 & Hs & ->) Hx.
-  unfold pd in *. rewrite plane_dot_bary in Hx by exact Hs.
-  pose proof (quad0_lerp eps n o t) as E. unfold pd in E. rewrite E by lra. clear E. cbv zeta.
-  set (a := plane_dot ROps n o (tget t 0)) in *. set (b := plane_dot ROps n o (tget t 1)) in *.
-  set (c := plane_dot ROps n o (tget t 2)) in *. clearbody a b c.
+  intros Ha Hb Hc (al & be & ga & H0 & H1 & H2 & Hs & -> & Hx).
+  rewrite quad0_lerp by lra. cbv zeta.
+  unfold wdot in Hx. destruct ds as [[a b] c]. cbn [dget fst snd] in *.
   destruct (Rle_dec 0 (ga * c + al * a)) as [Hcase|Hcase].
   - eexists. split; [left; reflexivity|].
     exists be, ((ga * c + al * a) / c), (al * (c - a) / c). repeat split.
@@ -61,107 +66,77 @@ Proof.
     + d3 t. tunf. apply V3_ext; field; lra.
 Qed.
 
-(* coverage: every point of the input face strictly in front of the plane lies in some output triangle; so does every
-   point on the plane unless the face is dropped (a dropped face meets the closed half-space in a corner or an edge) *)
-Theorem slice_face_cover tol eps n o m t x : 0 <= tol -> H0 tol n o t ->
-  in_tri t x -> 0 < pd n o x -> exists t', In t' (slice_face ROps tol eps n o m t) /\ in_tri t' x.
+(* coverage on the distances the kernel uses: a point of the face with positive interpolated distance lies in an output *)
+Theorem slice_face_signs_cover tol eps ds m t w0 w1 w2 : 0 <= tol -> snapped3 tol ds ->
+  0 <= w0 -> 0 <= w1 -> 0 <= w2 -> w0 + w1 + w2 = 1 -> 0 < wdot ds w0 w1 w2 ->
+  exists t', In t' (slice_face_signs ROps eps ds (signs3 ROps tol ds) m t) /\ in_tri t' (bary t w0 w1 w2).
 Proof.
-  intros Ht HH Hin Hx. unfold slice_face, slice_face_signs.
-  pose proof (face_case_facts tol n o t m Ht) as Hf.
-  destruct (face_case (tri_signs ROps tol n o t) m) as [| |k|k].
-  - exists t. split; [left; reflexivity|exact Hin].
-  - exfalso. destruct Hf as [_ Hf]. destruct Hin as (al & be & ga & H0' & H1 & H2 & Hs & ->).
-    unfold pd in *. rewrite plane_dot_bary in Hx by exact Hs.
-    pose proof (H0_nonpos tol n o t 0 Ht HH ltac:(lia) (Hf 0%nat ltac:(lia))) as D0.
-    pose proof (H0_nonpos tol n o t 1 Ht HH ltac:(lia) (Hf 1%nat ltac:(lia))) as D1.
-    pose proof (H0_nonpos tol n o t 2 Ht HH ltac:(lia) (Hf 2%nat ltac:(lia))) as D2. unfold pd in *. nra.
+  intros Ht HS H0 H1 H2 Hs Hpos. unfold slice_face_signs.
+  assert (Hnn : in_tri_nn t ds (bary t w0 w1 w2)) by (exists w0, w1, w2; repeat split; auto; lra).
+  pose proof (face_case_facts tol ds m Ht) as Hf.
+  destruct (face_case (signs3 ROps tol ds) m) as [| |k|k].
+  - exists t. split; [left; reflexivity|]. exists w0, w1, w2. auto.
+  - exfalso. destruct Hf as [_ Hf]. unfold wdot in Hpos.
+    pose proof (snapped_nonpos tol ds 0 Ht HS ltac:(lia) (Hf 0%nat ltac:(lia))).
+    pose proof (snapped_nonpos tol ds 1 Ht HS ltac:(lia) (Hf 1%nat ltac:(lia))).
+    pose proof (snapped_nonpos tol ds 2 Ht HS ltac:(lia) (Hf 2%nat ltac:(lia))). nra.
   - destruct Hf as (Hm & Hk & Ha & Hb & Hc). rewrite quad_tris_rot by exact Hk.
-    destruct (quad0_cover eps n o (rot3 t k) x) as (t' & Hin' & Hx'); try (unfold rot3; cbn [tget fst snd]; lra).
-    + apply in_tri_rot; assumption.
-    + exists t'. split; [exact Hin'|exact Hx'].
+    apply quad0_cover; try (unfold rotd; cbn [dget fst snd]; lra). apply in_tri_nn_unrot; assumption.
   - destruct Hf as (Hm & Hk & Ha & Hb & Hc). rewrite cut_tris_rot by exact Hk. destruct (mod3_lt k) as [Hk1 Hk2].
-    destruct (tri0_cover eps n o (rot3 t k) x) as (t' & Hin' & Hx'); try (unfold rot3; cbn [tget fst snd]).
+    apply tri0_cover; try (unfold rotd; cbn [dget fst snd]).
     + lra.
-    + apply (H0_nonpos tol n o t _ Ht HH Hk1 Hb).
-    + apply (H0_nonpos tol n o t _ Ht HH Hk2 Hc).
-    + apply in_tri_rot; assumption.
-    + lra.
-    + exists t'. split; [exact Hin'|exact Hx'].
+    + apply (snapped_nonpos tol ds _ Ht HS Hk1 Hb).
+    + apply (snapped_nonpos tol ds _ Ht HS Hk2 Hc).
+    + apply in_tri_nn_unrot; assumption.
+Qed.
+(* coverage in true distances: every point of the input face further than tol in front of the plane lies in some output *)
+Theorem slice_face_cover tol eps n o m t x : 0 <= tol ->
+  in_tri t x -> tol < pd n o x -> exists t', In t' (slice_face ROps tol eps n o m t) /\ in_tri t' x.
+Proof.
+  intros Ht (w0 & w1 & w2 & H0 & H1 & H2 & Hs & ->) Hx. unfold slice_face, tri_signs.
+  apply (slice_face_signs_cover tol eps _ m t w0 w1 w2 Ht (tri_dists_snapped tol n o t Ht) H0 H1 H2 Hs).
+  pose proof (wdot_close tol n o t w0 w1 w2 Ht H0 H1 H2 Hs). lra.
 Qed.
 
-(* area: the vector areas of the output triangles add up to a fraction f in [0,1] of the input face's *)
+(* ---- area: explicit fraction of the face's vector area that is kept ------------------------------------------ *)
+Definition frac_case (c : fcase) (ds : R * R * R) : R :=
+  match c with
+  | Keep => 1
+  | Drop => 0
+  | CQuad k => frac_quad0 (dget ds k) (dget ds ((k + 1) mod 3)) (dget ds ((k + 2) mod 3))
+  | CTri k => frac_tri0 (dget ds k) (dget ds ((k + 1) mod 3)) (dget ds ((k + 2) mod 3))
+  end.
 Lemma area_frac_rot t k l f : (k < 3)%nat -> area_frac (rot3 t k) l f -> area_frac t l f.
 Proof. intros Hk [H1 H2]. split; [exact H1|]. rewrite H2, tri_normal_rot by exact Hk. reflexivity. Qed.
 
-Theorem slice_face_area tol eps n o m t : 0 <= tol -> H0 tol n o t ->
-  exists f, area_frac t (slice_face ROps tol eps n o m t) f.
+Theorem slice_face_signs_area tol eps ds m t : 0 <= tol -> snapped3 tol ds ->
+  area_frac t (slice_face_signs ROps eps ds (signs3 ROps tol ds) m t) (frac_case (face_case (signs3 ROps tol ds) m) ds).
 Proof.
-  intros Ht HH. unfold slice_face, slice_face_signs.
-  pose proof (face_case_facts tol n o t m Ht) as Hf.
-  destruct (face_case (tri_signs ROps tol n o t) m) as [| |k|k].
-  - exists 1. split; [lra|]. unfold vsum_normals. cbn [fold_right]. destruct (tri_normal t). vunf. apply V3_ext; ring.
-  - exists 0. split; [lra|]. unfold vsum_normals. cbn [fold_right]. destruct (tri_normal t). vunf. apply V3_ext; ring.
-  - destruct Hf as (Hm & Hk & Ha & Hb & Hc). rewrite quad_tris_rot by exact Hk. eexists.
-    apply (area_frac_rot t k _ _ Hk). apply quad0_orient_area; unfold rot3; cbn [tget fst snd]; lra.
-  - destruct Hf as (Hm & Hk & Ha & Hb & Hc). rewrite cut_tris_rot by exact Hk. destruct (mod3_lt k) as [Hk1 Hk2]. eexists.
-    apply (area_frac_rot t k _ _ Hk). apply tri0_area; unfold rot3; cbn [tget fst snd].
+  intros Ht HS. unfold slice_face_signs.
+  pose proof (face_case_facts tol ds m Ht) as Hf.
+  destruct (face_case (signs3 ROps tol ds) m) as [| |k|k]; cbn [frac_case].
+  - split; [lra|]. unfold vsum_normals. cbn [fold_right]. destruct (tri_normal t). vunf. apply V3_ext; ring.
+  - split; [lra|]. unfold vsum_normals. cbn [fold_right]. destruct (tri_normal t). vunf. apply V3_ext; ring.
+  - destruct Hf as (Hm & Hk & Ha & Hb & Hc). rewrite quad_tris_rot by exact Hk.
+    apply (area_frac_rot t k _ _ Hk).
+    apply (quad0_orient_area eps (rotd ds k) (rot3 t k)); unfold rotd; cbn [dget fst snd]; lra.
+  - destruct Hf as (Hm & Hk & Ha & Hb & Hc). rewrite cut_tris_rot by exact Hk. destruct (mod3_lt k) as [Hk1 Hk2].
+    apply (area_frac_rot t k _ _ Hk).
+    apply (tri0_area eps (rotd ds k) (rot3 t k)); unfold rotd; cbn [dget fst snd].
     + lra.
-    + apply (H0_nonpos tol n o t _ Ht HH Hk1 Hb).
-    + apply (H0_nonpos tol n o t _ Ht HH Hk2 Hc).
+    + apply (snapped_nonpos tol ds _ Ht HS Hk1 Hb).
+    + apply (snapped_nonpos tol ds _ Ht HS Hk2 Hc).
 Qed.
+Theorem slice_face_area tol eps n o m t : 0 <= tol ->
+  exists f, area_frac t (slice_face ROps tol eps n o m t) f.
+Proof. intros Ht. eexists. apply (slice_face_signs_area tol eps _ m t Ht (tri_dists_snapped tol n o t Ht)). Qed.
 
-(* idempotence, face by face: every output triangle of a selected face is wholly on or in front, so slicing it again
-   with the same plane hands it back unchanged *)
-Theorem slice_face_idempotent tol eps n o t t' : 0 <= tol -> H0 tol n o t ->
+(* idempotence, face by face: every output triangle of a selected face is wholly on or in front (true distance >= -tol),
+   so slicing it again with the same plane hands it back unchanged *)
+Theorem slice_face_idempotent tol eps n o t t' : 0 <= tol ->
   In t' (slice_face ROps tol eps n o true t) -> forall m', slice_face ROps tol eps n o m' t' = [t'].
 Proof.
-  intros Ht HH Hin m'. apply slice_face_keep. intros k Hk.
-  destruct (slice_face_sound tol eps n o true t t' (tget t' k) Ht HH Hin (corner_in_tri t' k Hk)) as [_ Hd].
-  specialize (Hd eq_refl). lra.
-Qed.
-
-(* without H0: how far outside its edge a cut point can be when the far corner sits inside the tolerance band *)
-Lemma cut_param_band tol a b : 0 <= tol -> tol < a -> b <= tol -> 0 < a / (a - b) <= 1 + tol / (a - tol).
-Proof.
-  intros Ht Ha Hb. assert (H1 : 0 < a - tol) by lra. assert (H2 : a - tol <= a - b) by lra. split.
-  - apply Rdiv_lt_0_compat; lra.
-  - replace (1 + tol / (a - tol)) with (a / (a - tol)) by (field; lra).
-    unfold Rdiv. apply Rmult_le_compat_l; [lra|]. apply Rinv_le_contravar; lra.
-Qed.
-
-(* WITHOUT H0 the cut point can leave its edge: a corner in front barely outside the band (offset a) and a corner inside
-   the band on the same side (offset b, classified "on") give the parameter a/(a-b) > 1, i.e. a new vertex beyond the
-   far corner, outside the input face.  Witness: tol = 1, a = 2, b = 1/2, parameter 4/3. *)
-Lemma cut_param_exceeds_one :
-  exists tol a b, 0 <= tol /\ tol < a /\ - tol <= b <= tol /\ 1 < a / (a - b).
-Proof. exists 1, 2, (1/2). repeat split; lra. Qed.
-
-(* the same on a whole face: corners with offsets 2 (front), 1/2 (on, tol = 1), -2 (behind); the output triangle has the
-   corner (4/3, 0, 0), which is not in the input face *)
-Lemma cut_vertex_outside_face :
-  exists tol eps n o t t' v, 0 <= tol /\ In t' (slice_face ROps tol eps n o true t) /\ In v (tri_corners t') /\ ~ in_tri t v.
-Proof.
-  exists 1, 1, (V3 0 0 1), (V3 0 0 0), (V3 0 0 2, V3 1 0 (1/2), V3 0 1 (-2)).
-  eexists. exists (V3 (4/3) 0 0). split; [lra|].
-  assert (S0 : vsign ROps 1 (plane_dot ROps (V3 0 0 1) (V3 0 0 0) (V3 0 0 2)) = (-1)%Z).
-  { unfold vsign, plane_dot; vunf.
-    repeat match goal with |- context [Rltb ?a ?b] => destruct (Rltb_spec a b); try (exfalso; lra) end; reflexivity. }
-  assert (S1 : vsign ROps 1 (plane_dot ROps (V3 0 0 1) (V3 0 0 0) (V3 1 0 (1/2))) = 0%Z).
-  { unfold vsign, plane_dot; vunf.
-    repeat match goal with |- context [Rltb ?a ?b] => destruct (Rltb_spec a b); try (exfalso; lra) end; reflexivity. }
-  assert (S2 : vsign ROps 1 (plane_dot ROps (V3 0 0 1) (V3 0 0 0) (V3 0 1 (-2))) = 1%Z).
-  { unfold vsign, plane_dot; vunf.
-    repeat match goal with |- context [Rltb ?a ?b] => destruct (Rltb_spec a b); try (exfalso; lra) end; reflexivity. }
-  split; [|split].
-  - unfold slice_face, tri_signs. cbn [tget fst snd]. rewrite S0, S1, S2.
-    unfold slice_face_signs. cbn [face_case inside is_quad is_tri onedge ssum sasum sget fst snd Z.add Z.abs Z.eqb Z.leb Z.ltb
-      Z.compare Z.opp Pos.compare Pos.compare_cont Pos.add Pos.succ andb orb negb col_of cut_tris]. left. reflexivity.
-  - change (col_of (-1) ((-1)%Z, 0%Z, 1%Z)) with 0%nat.
-    unfold tri_corners. cbn [tget fst snd In]. right. left.
-    unfold int_points. cbn [tget fst snd Nat.add Nat.modulo Nat.divmod Nat.sub].
-    unfold int_point. vunf.
-    match goal with |- context [Reqb ?a ?b] => destruct (Reqb_spec a b) as [E|E]; [exfalso; lra|] end.
-    apply V3_ext; field; lra.
-  - intros (w0 & w1 & w2 & H0' & H1 & H2 & Hs & E). unfold bary in E. cbn [tget fst snd] in E. vunf_in E.
-    injection E as Ex Ey Ez. lra.
+  intros Ht Hin m'. apply slice_face_keep; [exact Ht|]. intros k Hk.
+  destruct (slice_face_sound tol eps n o true t t' (tget t' k) Ht Hin (corner_in_tri t' k Hk)) as [_ Hd].
+  exact (Hd eq_refl).
 Qed.
